@@ -38,7 +38,7 @@ def run(env, rep):
         "does not fit is refused, not truncated); R2: the set of property-name lengths the encoder can write (interval at the "
         "u16 emission) excludes the length the decoder reserves as object terminator; R3: encoder and decoder agree per value "
         "type on marker, field widths, byte order and terminator (both extracted from the current source); R4: encoder and decoder keep no state between calls "
-        "(no function reachable from serialize / deserialize touches a thread-local or a writable static), so what one call returns cannot depend on an earlier call.  Not decided: the "
+        "(no function reachable from serialize / deserialize touches a thread-local or a writable static), so what one call returns cannot depend on an earlier call; R5: the decoder builds an error only for input the encoder never writes (unsupported marker, nesting limit, truncated input, an empty name that is not the terminator, invalid UTF-8) - never on a decision about the decoded value.  Not decided: the "
         "identity over the whole value space.")
     rep.assumptions = ["A-MEM for array.len() as u32", "byteorder encodes the named width and byte order"]
     spec = amf0.load_spec()
@@ -174,3 +174,6 @@ def run(env, rep):
     from ..framework import wants
     if wants(rep, "C04.R4"):
         stateless(env, rep, "C04.R4", ["serialization::serialize", "deserialization::deserialize"], "the AMF0 codec")
+    # ------------------------------------------------------------------ R5 what the decoder refuses
+    if wants(rep, "C04.R5"):
+        amf0.check_decoder_refusals(env, rep, "C04.R5")
